@@ -435,3 +435,118 @@ def template_text(parts, names=True):
     if parts is None:
         return None
     return "".join(p if isinstance(p, str) else ("{%s%s}" % (p[1], "" if p[2] == "s" else "!" + p[2]) if names else "{}") for p in parts)
+
+
+def with_private_helpers(p, cg, f, depth=3):
+    """[f and the private (underscore) functions of the same module it reaches through calls]: for rules of the
+    form 'somewhere in this method X happens', which must not depend on X sitting in the method itself rather than in
+    a private helper (call positions the normal form cannot inline, e.g. a helper called inside a test)."""
+    out, seen, frontier = [f], {f.qual}, [f]
+    for _ in range(depth):
+        nxt = []
+        for g in frontier:
+            for c in ast.walk(g.node):
+                if isinstance(c, ast.Call):
+                    for t in cg.callees(c):
+                        if t.qual not in seen and t.module is f.module and t.name.startswith("_") and not t.name.startswith("__"):
+                            seen.add(t.qual)
+                            out.append(t)
+                            nxt.append(t)
+        frontier = nxt
+    return out
+
+
+def formula_leaves(e):
+    """Maximal sub-expressions of a boolean/arithmetical formula that are not
+    and/or/not/comparison/constant/+/-: the quantities it speaks about."""
+    out = []
+
+    def rec(x):
+        if isinstance(x, ast.BoolOp):
+            for v in x.values:
+                rec(v)
+        elif isinstance(x, ast.UnaryOp) and isinstance(x.op, (ast.Not, ast.USub)):
+            rec(x.operand)
+        elif isinstance(x, ast.Compare):
+            rec(x.left)
+            for c in x.comparators:
+                rec(c)
+        elif isinstance(x, ast.BinOp) and isinstance(x.op, (ast.Add, ast.Sub)):
+            rec(x.left)
+            rec(x.right)
+        elif isinstance(x, ast.IfExp):
+            rec(x.test)
+            rec(x.body)
+            rec(x.orelse)
+        elif isinstance(x, ast.Constant):
+            pass
+        else:
+            t = norm(x)
+            if t not in out:
+                out.append(t)
+    rec(e)
+    return out
+
+
+def formula_eval(e, env):
+    """Value of a formula under env {leaf text: python value} with Python's own
+    semantics for and/or/not/comparison chains/+/-."""
+    import operator as op
+    ops = {ast.Eq: op.eq, ast.NotEq: op.ne, ast.Lt: op.lt, ast.LtE: op.le, ast.Gt: op.gt, ast.GtE: op.ge,
+           ast.Is: op.is_, ast.IsNot: op.is_not, ast.In: lambda a, b: a in b, ast.NotIn: lambda a, b: a not in b}
+    if isinstance(e, ast.BoolOp):
+        v = None
+        for x in e.values:
+            v = formula_eval(x, env)
+            if isinstance(e.op, ast.And) and not v:
+                return v
+            if isinstance(e.op, ast.Or) and v:
+                return v
+        return v
+    if isinstance(e, ast.UnaryOp) and isinstance(e.op, ast.Not):
+        return not formula_eval(e.operand, env)
+    if isinstance(e, ast.UnaryOp) and isinstance(e.op, ast.USub):
+        return -formula_eval(e.operand, env)
+    if isinstance(e, ast.Compare):
+        left = formula_eval(e.left, env)
+        for o, c in zip(e.ops, e.comparators):
+            right = formula_eval(c, env)
+            if not ops[type(o)](left, right):
+                return False
+            left = right
+        return True
+    if isinstance(e, ast.BinOp) and isinstance(e.op, (ast.Add, ast.Sub)):
+        a, b = formula_eval(e.left, env), formula_eval(e.right, env)
+        return a + b if isinstance(e.op, ast.Add) else a - b
+    if isinstance(e, ast.IfExp):
+        return formula_eval(e.body, env) if formula_eval(e.test, env) else formula_eval(e.orelse, env)
+    if isinstance(e, ast.Constant):
+        return e.value
+    return env[norm(e)]
+
+
+def resolve_locals(f, expr, depth=5):
+    """expr with locals that are bound exactly once in f (by `name = <expr>`)
+    replaced by what they were bound to, transitively: what a value is derived
+    from, independent of how many intermediate locals the code uses.  (For
+    'is bound to / derives from' rules only: the binding is evaluated earlier
+    than the use, so rules about *when* something is read must not use this.)"""
+    import copy
+    binds, vals = {}, {}
+    for n in walk_own(f.node):
+        if isinstance(n, ast.Name) and isinstance(n.ctx, (ast.Store, ast.Del)):
+            binds[n.id] = binds.get(n.id, 0) + 1
+        if isinstance(n, ast.Assign) and len(n.targets) == 1 and isinstance(n.targets[0], ast.Name):
+            vals[n.targets[0].id] = n.value
+    for a in f.params + f.kwonly:
+        binds[a] = binds.get(a, 0) + 2
+
+    class S(ast.NodeTransformer):
+        def __init__(self, d):
+            self.d = d
+
+        def visit_Name(self, node):
+            if isinstance(node.ctx, ast.Load) and binds.get(node.id) == 1 and node.id in vals and self.d > 0:
+                return S(self.d - 1).visit(copy.deepcopy(vals[node.id]))
+            return node
+    return S(depth).visit(copy.deepcopy(expr))
